@@ -11,7 +11,7 @@
                  reference literal, print type, default type) - all computed here by TLC.
                  Shard k of NShards exports the cases with id % NShards = k (parallel TLC processes). *)
 EXTENDS Const, TLC, Json
-CONSTANTS Mode, W, Tier, Seed, Shard, NShards
+CONSTANTS Mode, W, Tier, Seed, Shard, NShards, N2
 
 (* ------------------------------------------------------------------ boundary literals (generated table) *)
 P7m1 == [s |-> 1, l |-> <<127>>]
@@ -144,76 +144,97 @@ AllLeaves == IntsA \o FloatsA \o OthersA \o TypedA
 Types == <<"bool", "string", "int", "int8", "int16", "int32", "int64", "uint", "uint8", "uint16", "uint32", "uint64", "uintptr",
            "float32", "float64", "complex64", "complex128">>
 
-\* operand sets of the binary groups (Tier 1 = quick, Tier 2 = thorough)
-Pick(seq, idx) == [i \in 1..Len(idx) |-> seq[idx[i]]]
-IB1 == <<I(0), I(1), I(-1), I(2), I(3), LInt(P31), LInt(N31), LInt(P32), LInt(P62), LInt(P63m1), LInt(P63), LInt(N63), LInt(N63m1), LInt(P64m1), LInt(P64),
+\* operand sets of the groups (Tier 1 = quick, Tier 2 = thorough)
+IB1 == <<I(0), I(1), I(-1), I(3), LInt(N31), LInt(P32), LInt(P62), LInt(P63m1), LInt(P63), LInt(N63), LInt(N63m1), LInt(P64m1),
          LInt(P100), LInt(P511), LInt(P512m1)>>
 IB == IF Tier = 1 THEN IB1 ELSE IntsA
-BB == <<I(0), I(1), I(-1), I(-2), LInt(P8m1), LInt(N7), LInt(P63), LInt(N63m1), LInt(P64m1), LInt(P100), LRune(97)>>
-MX1 == <<I(1), I(7), LRune(97), LFloat(Sm(1), -1), LFloat(Sm(3), -1), LFloat(Sm(7), 0), LFloat(Sm(1), -1074), LFloat(Sm(1), 1023), LFloat(Sm(1), 1024), LFloat(Zero, 0),
+BB1 == <<I(0), I(1), I(-1), I(-2), LInt(P8m1), LInt(N7), LInt(N63m1), LInt(P64m1), LInt(P100)>>
+BB == IF Tier = 1 THEN BB1 ELSE BB1 \o <<LInt(P63), LInt(N63), LInt(P511), LInt(N511), LRune(97), LFloat(Sm(1), 0)>>
+MX1 == <<I(1), I(7), LRune(97), LFloat(Sm(1), -1), LFloat(Sm(3), -1), LFloat(Sm(7), 0), LFloat(Sm(1), -1074), LFloat(Sm(1), 1024), LFloat(Zero, 0),
          LImag(Sm(1), 0), LImag(Sm(3), -1), LStr(<<115>>), LBool(TRUE),
-         Cv("int8", LInt(P7m1)), Cv("uint8", LInt(P8m1)), Cv("float32", LFloat(Sm(3), -1)), Cv("float32", LFloat(MaxF32, 0)), Cv("float64", I(7)), Cv("float64", LFloat(Sm(1), 1023)),
-         Cv("complex128", LImag(Sm(3), -1)), Cv("complex64", LImag(Sm(1), 0)), Cv("string", LStr(<<115>>)), Cv("bool", LBool(TRUE))>>
-MX == IF Tier = 1 THEN MX1 ELSE MX1 \o <<I(0), I(-1), LInt(P63), LInt(P64p1), LInt(F53p1), LInt(P511), LFloat(F53p1, 0), LFloat(P63p1, 0), LFloat(Sm(1), -149), LFloat(Sm(1), 128),
-                                        LFloat(Sm(1), 5000), LImag(Zero, 0), LStr(<<>>), LBool(FALSE),
-                                        Cv("int64", LInt(N63)), Cv("uint64", LInt(P64m1)), Cv("int", I(7)), Cv("float64", LFloat(Sm(1), -1074)), Cv("complex128", I(2))>>
-TB == <<Cv("int8", LInt(P7m1)), Cv("int8", LInt(N7)), Cv("int8", I(-1)), Cv("int8", I(1)), Cv("int8", I(0)),
-        Cv("uint8", LInt(P8m1)), Cv("uint8", I(0)), Cv("uint8", I(1)), Cv("uint8", I(2)),
-        Cv("int64", LInt(P63m1)), Cv("int64", LInt(N63)), Cv("int64", I(-1)), Cv("int64", I(2)),
-        Cv("uint64", LInt(P64m1)), Cv("uint64", LInt(P63)), Cv("uint64", I(2)),
-        Cv("float32", LFloat(MaxF32, 0)), Cv("float32", LFloat(Sm(3), -1)), Cv("float32", LFloat(F24p1, 0)), Cv("float32", I(7)), Cv("float32", LFloat(Sm(1), -149)),
-        Cv("float64", LFloat(Sm(1), 1023)), Cv("float64", I(7)), Cv("float64", I(2)), Cv("float64", LFloat(Sm(1), -1074)),
-        Cv("complex128", LImag(Sm(3), -1)), Cv("complex128", I(2)), Cv("complex64", LImag(Sm(1), 0))>>
+         Cv("int8", LInt(P7m1)), Cv("float32", LFloat(Sm(3), -1)), Cv("float64", I(7)), Cv("complex128", LImag(Sm(3), -1))>>
+MX2 == <<I(0), I(-1), LInt(P63), LInt(P64p1), LInt(F53p1), LInt(P511), LFloat(Sm(1), 1023), LFloat(F53p1, 0), LFloat(P63p1, 0), LFloat(Sm(1), -149), LFloat(Sm(1), 128),
+         LFloat(Sm(1), 5000), LFloat(P63p1, 5000), LImag(Zero, 0), LStr(<<>>), LBool(FALSE),
+         Cv("uint8", LInt(P8m1)), Cv("int64", LInt(N63)), Cv("uint64", LInt(P64m1)), Cv("int", I(7)), Cv("float32", LFloat(MaxF32, 0)), Cv("float64", LFloat(Sm(1), 1023)),
+         Cv("float64", LFloat(Sm(1), -1074)), Cv("complex128", I(2)), Cv("complex64", LImag(Sm(1), 0)), Cv("string", LStr(<<115>>)), Cv("bool", LBool(TRUE))>>
+MX == IF Tier = 1 THEN MX1 ELSE MX1 \o MX2
+MXs == <<I(7), LRune(97), LFloat(Sm(3), -1), LFloat(Sm(7), 0), LImag(Sm(1), 0), LStr(<<115>>), LBool(TRUE), Cv("uint8", LInt(P8m1)), Cv("float64", I(7)), Cv("complex64", LImag(Sm(1), 0))>>
+\* typed constants of one type (boundary values of that type)
+TI8 == <<Cv("int8", LInt(P7m1)), Cv("int8", LInt(N7)), Cv("int8", I(-1)), Cv("int8", I(1)), Cv("int8", I(0))>>
+TU8 == <<Cv("uint8", LInt(P8m1)), Cv("uint8", I(0)), Cv("uint8", I(1)), Cv("uint8", I(2))>>
+TI64 == <<Cv("int64", LInt(P63m1)), Cv("int64", LInt(N63)), Cv("int64", I(-1)), Cv("int64", I(2))>>
+TU64 == <<Cv("uint64", LInt(P64m1)), Cv("uint64", LInt(P63)), Cv("uint64", I(2))>>
+TF32 == <<Cv("float32", LFloat(MaxF32, 0)), Cv("float32", LFloat(Sm(3), -1)), Cv("float32", LFloat(F24p1, 0)), Cv("float32", I(7)), Cv("float32", LFloat(Sm(1), -149))>>
+TF64 == <<Cv("float64", LFloat(Sm(1), 1023)), Cv("float64", I(7)), Cv("float64", I(2)), Cv("float64", LFloat(Sm(1), -1074))>>
+TC == <<Cv("complex128", LImag(Sm(3), -1)), Cv("complex128", I(2)), Cv("complex128", Bin("+", I(1), LImag(Sm(1), 0)))>>
+TC64 == <<Cv("complex64", LImag(Sm(1), 0)), Cv("complex64", LFloat(Sm(3), -1)), Cv("complex64", Bin("+", I(1), LImag(Sm(1), 0)))>>
+TX == <<Cv("int8", I(1)), Cv("uint8", I(1)), Cv("int32", I(1)), Cv("int", I(1)), Cv("int64", I(1)), Cv("float32", I(1)), Cv("float64", I(1)), Cv("complex128", I(1)), Cv("bool", LBool(TRUE)), Cv("string", LStr(<<115>>))>>
 LB == <<LBool(TRUE), LBool(FALSE), Cv("bool", LBool(TRUE)), I(1), LStr(<<115>>)>>
-SL == <<I(0), I(1), I(-1), LInt(P8m1), LInt(P63), LInt(N63), LInt(P511), LFloat(Sm(1), 0), LFloat(Sm(3), -1), LFloat(Sm(1), 64), LRune(97), LImag(Sm(1), 0), LImag(Zero, 0),
-        LStr(<<115>>), Cv("int8", I(1)), Cv("int8", I(-1)), Cv("uint8", LInt(P8m1)), Cv("int64", I(-1)), Cv("uint64", I(1)), Cv("float64", I(7))>>
-SC == <<I(0), I(1), I(7), I(8), I(63), I(64), I(100), I(511), I(512), I(-1), LInt(P64), LFloat(Sm(1), 0), LFloat(Sm(3), -1), LRune(48), LImag(Zero, 0), LBool(TRUE),
-        Cv("uint8", I(1)), Cv("int8", I(-1)), Cv("uint", I(7)), Cv("float64", I(1))>>
+SL1 == <<I(0), I(1), I(-1), LInt(P8m1), LInt(P63), LInt(P511), LFloat(Sm(1), 0), LFloat(Sm(3), -1), LRune(97), LImag(Zero, 0),
+         LStr(<<115>>), Cv("int8", I(1)), Cv("uint8", LInt(P8m1)), Cv("int64", I(-1)), Cv("float64", I(7))>>
+SL == IF Tier = 1 THEN SL1 ELSE SL1 \o <<LInt(N63), LFloat(Sm(1), 64), LFloat(Sm(1), 1024), LImag(Sm(1), 0), Cv("int8", I(-1)), Cv("uint64", I(1)), Cv("int", I(7))>>
+SC1 == <<I(0), I(1), I(7), I(8), I(63), I(64), I(511), I(512), I(-1), LFloat(Sm(1), 0), LFloat(Sm(3), -1), LRune(48), LBool(TRUE),
+         Cv("uint8", I(1)), Cv("int8", I(-1)), Cv("float64", I(1))>>
+SC == IF Tier = 1 THEN SC1 ELSE SC1 \o <<I(100), I(510), LInt(P64), LInt(P100), LImag(Zero, 0), LImag(Sm(1), 0), LStr(<<115>>), Cv("uint", I(7)), Cv("int64", I(63))>>
 
 ArithOpsS == <<"+", "-", "*", "/", "%">>
 BitOpsS == <<"&", "|", "^", "&^">>
-MixedOpsS == <<"+", "-", "*", "/", "%", "&", "==", "!=", "<", ">=", "&&">>
+MixedOpsA == <<"+", "*", "/", "==", "<">>
+MixedOpsB == <<"-", "%", "&", "!=", ">=", "&&">>
 TypedOpsS == <<"+", "-", "*", "/", "%", "^", "==", "<">>
 CmpOpsS == <<"==", "!=", "<", "<=", ">", ">=">>
 LogicOpsS == <<"&&", "||", "==", "!=">>
 ShiftOpsS == <<"<<", ">>">>
 UnOpsS == <<"+", "-", "^", "!">>
 
-Grid(ops, A, B) == [i \in 1..(Len(ops) * Len(A) * Len(B)) |->
-                      Bin(ops[((i - 1) % Len(ops)) + 1], A[(((i - 1) \div Len(ops)) % Len(A)) + 1], B[((i - 1) \div (Len(ops) * Len(A))) + 1])]
-UnGrid(ops, A) == [i \in 1..(Len(ops) * Len(A)) |-> Un(ops[((i - 1) % Len(ops)) + 1], A[((i - 1) \div Len(ops)) + 1])]
-CvGrid(A) == [i \in 1..(Len(Types) * Len(A)) |-> Cv(Types[((i - 1) % Len(Types)) + 1], A[((i - 1) \div Len(Types)) + 1])]
-
-Depth1 == UnGrid(UnOpsS, AllLeaves) \o CvGrid(AllLeaves) \o Grid(ArithOpsS, IB, IB) \o Grid(BitOpsS, BB, BB)
-          \o Grid(MixedOpsS, MX, MX) \o Grid(TypedOpsS, TB, TB) \o Grid(LogicOpsS, LB, LB) \o Grid(ShiftOpsS, SL, SC)
-          \o (IF Tier = 1 THEN <<>> ELSE Grid(CmpOpsS, MX1, MX1))
-N1 == Len(Depth1)
+\* a group is a grid ops x A (x B); trees are computed from their index (nothing is materialised)
+GUn(ops, A) == [kind |-> "un", ops |-> ops, A |-> A, B |-> <<>>]
+GCv(A) == [kind |-> "cv", ops |-> Types, A |-> A, B |-> <<>>]
+GBin(ops, A, B) == [kind |-> "bin", ops |-> ops, A |-> A, B |-> B]
+Groups == <<GUn(UnOpsS, AllLeaves), GCv(AllLeaves), GBin(ArithOpsS, IB, IB), GBin(BitOpsS, BB, BB),
+            GBin(MixedOpsA, MX, MX), GBin(MixedOpsB, MXs, MXs),
+            GBin(TypedOpsS, TI8, TI8), GBin(TypedOpsS, TU8, TU8), GBin(TypedOpsS, TI64, TI64), GBin(TypedOpsS, TU64, TU64),
+            GBin(TypedOpsS, TF32, TF32), GBin(TypedOpsS, TF64, TF64), GBin(TypedOpsS, TC, TC), GBin(TypedOpsS, TC64, TC64),
+            GBin(<<"+", "==">>, TX, TX), GBin(LogicOpsS, LB, LB), GBin(ShiftOpsS, SL, SC)>>
+         \o (IF Tier = 1 THEN <<>> ELSE <<GBin(CmpOpsS, MX1, MX1), GBin(<<"-", "%", "&^", "|", "!=", "<=", ">", "||">>, MX1, MX1)>>)
+GN(g) == IF g.kind = "bin" THEN Len(g.ops) * Len(g.A) * Len(g.B) ELSE Len(g.ops) * Len(g.A)
+GAt(g, i) == LET o == g.ops[((i - 1) % Len(g.ops)) + 1]
+                 x == g.A[(((i - 1) \div Len(g.ops)) % Len(g.A)) + 1] IN
+             CASE g.kind = "un" -> Un(o, x)
+               [] g.kind = "cv" -> Cv(o, x)
+               [] OTHER -> Bin(o, x, g.B[((i - 1) \div (Len(g.ops) * Len(g.A))) + 1])
+RECURSIVE SumN(_)
+SumN(gi) == IF gi > Len(Groups) THEN 0 ELSE GN(Groups[gi]) + SumN(gi + 1)
+RECURSIVE FindTree(_, _)
+FindTree(gi, i) == IF i <= GN(Groups[gi]) THEN GAt(Groups[gi], i) ELSE FindTree(gi + 1, i - GN(Groups[gi]))
+Depth1At(i) == FindTree(1, i)
 
 \* depth-2 trees (Tier 2): a pseudo-random depth-1 tree combined with a pseudo-random leaf / operator / type
 AllOpsS == <<"+", "-", "*", "/", "%", "&", "|", "^", "&^", "<<", ">>", "==", "!=", "<", "<=", ">", ">=", "&&", "||">>
-N2 == IF Tier = 1 THEN 0 ELSE 3000
 Rnd(j, salt, m) == ((j * 7919 + salt * 15485863 + Seed * 104729 + (j % 977) * salt * 31) % 1000003) % m
-Depth2(j) ==
-  LET t == Depth1[Rnd(j, 1, N1) + 1]
+Depth2(j, n1) ==
+  LET t == Depth1At(Rnd(j, 1, n1) + 1)
       lf == AllLeaves[Rnd(j, 2, Len(AllLeaves)) + 1]
-      op == AllOpsS[Rnd(j, 3, Len(AllOpsS)) + 1]
+      o == AllOpsS[Rnd(j, 3, Len(AllOpsS)) + 1]
       shape == Rnd(j, 4, 8)
-  IN CASE shape \in {0, 1, 2} -> Bin(op, t, lf)
-       [] shape \in {3, 4} -> Bin(op, lf, t)
+  IN CASE shape \in {0, 1, 2} -> Bin(o, t, lf)
+       [] shape \in {3, 4} -> Bin(o, lf, t)
        [] shape = 5 -> Un(UnOpsS[Rnd(j, 5, 4) + 1], t)
        [] shape = 6 -> Cv(Types[Rnd(j, 6, Len(Types)) + 1], t)
-       [] OTHER -> Bin(op, t, Depth1[Rnd(j, 7, N1) + 1])
-TreeOf(id) == IF id <= N1 THEN Depth1[id] ELSE Depth2(id - N1)
-NAll == N1 + N2
+       [] OTHER -> Bin(o, t, Depth1At(Rnd(j, 7, n1) + 1))
+TreeOf(id, n1) == IF id <= n1 THEN Depth1At(id) ELSE Depth2(id - n1, n1)
 
 \* the exported case: everything the driver splices comes from the reference
-CaseOf(id) ==
-  LET t == TreeOf(id) r == Eval(t) IN
+CaseOf(id, n1) ==
+  LET t == TreeOf(id, n1) r == Eval(t) IN
   [id |-> id, expr |-> t, src |-> Show(t), rst |-> r.st, rcls |-> r.cls, rty |-> r.ty, rchk |-> IF r.chk THEN 1 ELSE 0,
    reflit |-> RefLit(r), vt |-> PrintType(r), dt |-> IF DynObservable(r) THEN 1 ELSE 0]
-NShard == (NAll - Shard + NShards) \div NShards - (IF Shard = 0 THEN 1 ELSE 0)
-Cases == [j \in 1..NShard |-> CaseOf(IF Shard = 0 THEN j * NShards ELSE Shard + (j - 1) * NShards)]
-ASSUME Mode = "gen" => (LitPowersOk /\ IntLitsOk /\ ndJsonSerialize("cases.ndjson", Cases))
+\* N2 depth-2 cases follow the N1 depth-1 cases; shard k exports the ids with id % NShards = k
+CasesOf(n1) ==
+  LET nall == n1 + N2
+      cnt == (nall - Shard + NShards) \div NShards - (IF Shard = 0 THEN 1 ELSE 0) IN
+  [j \in 1..cnt |-> CaseOf(IF Shard = 0 THEN j * NShards ELSE Shard + (j - 1) * NShards, n1)]
+ASSUME Mode = "gen" => (LitPowersOk /\ IntLitsOk /\ ndJsonSerialize("cases.ndjson", CasesOf(SumN(1))))
 
 (* ------------------------------------------------------------------ Mode "mc": the int64 fast path at width W *)
 VARIABLES op, a, b, pc, res
